@@ -245,7 +245,11 @@ func ComposeItem(id string, ins []string, outs [][]string) FItem {
 	for j := 0; j < k; j++ {
 		name := fmt.Sprintf("%ss%d", id, j)
 		o := vars(fmt.Sprintf("o%d_", j), 0, len(outs[j]))
-		fmt.Fprintf(&body, "\t\t\t\t%s := impl%s(%s)\n", join(append(append([]string{}, o...), "_")), name, join(cur))
+		op := ":="
+		if len(o) == 0 {
+			op = "="
+		}
+		fmt.Fprintf(&body, "\t\t\t\t%s %s impl%s(%s)\n", join(append(append([]string{}, o...), "_")), op, name, join(cur))
 		for _, v := range o {
 			fmt.Fprintf(&body, "\t\t\t\t_ = %s\n", v)
 		}
@@ -329,7 +333,11 @@ func JoinErrItem(id string, r []string, tuple bool) FItem {
 	ds := vars("d", 0, len(r))
 	var body strings.Builder
 	body.WriteString("\t\tfor mode := 0; mode < 3; mode++ { // 0 ok, 1 outer error, 2 inner function fails\n\t\t\tt.Reset()\n\t\t\tt.Pause()\n")
-	fmt.Fprintf(&body, "\t\t\t%s := impl%sf()\n\t\t\tt.Resume()\n", join(append(append([]string{}, ds...), "_")), id)
+	jop := ":="
+	if len(ds) == 0 {
+		jop = "="
+	}
+	fmt.Fprintf(&body, "\t\t\t%s %s impl%sf()\n\t\t\tt.Resume()\n", join(append(append([]string{}, ds...), "_")), jop, id)
 	for _, d := range ds {
 		fmt.Fprintf(&body, "\t\t\t_ = %s\n", d)
 	}
